@@ -23,7 +23,7 @@ META = {
     ],
     "floors": {
         "quick": {"circuits_simulated": 3000, "records_compared": 3000, "detector_checks": 3000, "with_ancilla_state": 250, "from_connectivity": 250,
-                  "cycles_ge_4": 300, "refocus_off": 200},
+                  "cycles_ge_4": 300, "refocus_off": 200, "distance_1_inputs": 40},
         "thorough": {"circuits_simulated": 20000, "records_compared": 20000, "with_ancilla_state": 3000, "from_connectivity": 3000},
     },
 }
@@ -35,7 +35,7 @@ def plan(tier: str, seed: int) -> List[Dict[str, Any]]:
 
 
 def gen_input(rng: random.Random) -> Dict[str, Any]:
-    inp = libgen.gen_repcode_input(rng, max_distance=5, max_cycles=8, constructors=("full",))
+    inp = libgen.gen_repcode_input(rng, max_distance=5, max_cycles=8, constructors=("full",), min_distance=1)
     if inp["distance"] == 5 and rng.random() < 0.5:
         inp["cycles"] = rng.randint(0, 4)
     return inp
@@ -99,6 +99,8 @@ def check_input(inp: Dict[str, Any], acc: Acc):
     case = {"library": inp}
     if inp.get("ancilla_state") is not None:
         acc.count("with_ancilla_state")
+    if inp["distance"] == 1:
+        acc.count("distance_1_inputs")
     if inp["description"] == "connectivity":
         acc.count("from_connectivity")
     if inp["cycles"] >= 4:
